@@ -29,6 +29,11 @@ def run(ctx):
     ctx.cov["byte_fidelity_cases"] = rep["cases"]
     for m in rep["mismatches"]:
         ctx.violation("C03/bytes:" + m.get("what", "?"), m.get("what", "bytes differ"), {"mismatch": m})
+    # the same law with real file-system entries as statuses (symlink loop = I/O error other than not-found)
+    rep = worlds.parse_report(vlib.run_bin("amv", ["c03-fs", vlib.WORK]))
+    ctx.cov["real_fs_status_pairs"] = rep["cases"]
+    for m in rep["mismatches"]:
+        ctx.violation(f"C03/fs:{m.get('x')}-{m.get('y')}", m.get("what"), {"mismatch": m})
     ctx.cov["exhaustive"] = True
     ctx.cov["rule"] = ("W2: every assignment of {absent, ok, bad, io denied/other/notfound} to the extensions x,y,z and {absent, ok, bad} "
                        "to the empty extension (1296 sources) x load/load_owned of 9 keys; distinct by content; all non-trivial")
